@@ -20,7 +20,7 @@ TRUSTED = ["snapshot function (harness/wiring.py Real.snapshot) covers solver.st
 ASSUMPTIONS = []
 EXPLANATION = "connect validated before any mutation (Lean: atomicity and idempotence of the wiring step function)"
 
-INVALID = ["first-connected", "second-connected", "repeat", "repeat-flipped", "unknown-name", "unknown-pin",
+INVALID = ["first-connected", "second-connected", "both-connected", "repeat", "repeat-flipped", "unknown-name", "unknown-pin",
            "foreign-structure", "duplicate-add"]
 
 
@@ -110,6 +110,19 @@ def run_sequence(ctx, comps, ops, replay):
                         r = expect_reject(kind, lambda: real.sol.connect(real.sts[a], p, real.sts[c], r_))
                     else:
                         r = expect_reject(kind, lambda: real.sol.connect(real.sts[c], r_, real.sts[a], p))
+                elif kind == "both-connected":
+                    # both pins already take part in *other* connections (either may be the first- or the second-named end of its link)
+                    if len(links) < 2:
+                        continue
+                    l1, l2 = links[x % len(links)], links[y % len(links)]
+                    if l1 == l2:
+                        continue
+                    e1 = (l1[0], l1[1]) if z % 2 else (l1[2], l1[3])
+                    e2 = (l2[0], l2[1]) if (z // 2) % 2 else (l2[2], l2[3])
+                    if e1[0] == e2[0] or e1 == e2:
+                        continue
+                    executed.append(("invalid", kind, e1[0], e1[1], e2[0], e2[1]))
+                    r = expect_reject(kind, lambda: real.sol.connect(real.sts[e1[0]], e1[1], real.sts[e2[0]], e2[1]))
                 elif kind in ("repeat", "repeat-flipped"):
                     if not links:
                         continue
